@@ -25,6 +25,14 @@ pub struct SchedKnobs {
     pub early_coin: u32,
     /// fairness bound in microseconds
     pub stall_bound_us: u64,
+    /// A recorded schedule to follow instead of drawing task choices: the task id chosen at each
+    /// decision. Followed *tolerantly*: a recorded choice that is not runnable at that decision
+    /// (or that would break the fairness rule of the clock), and every decision after the end of
+    /// the recording, falls back on the default policy "stay on the current task, else the lowest
+    /// runnable task id, the clock daemon only at quiescence". A replay is therefore a pure
+    /// function of (schedule, workload, code) whether or not the schedule was edited by the
+    /// minimiser.
+    pub schedule: Option<std::sync::Arc<Vec<u32>>>,
 }
 
 impl Default for SchedKnobs {
@@ -33,6 +41,7 @@ impl Default for SchedKnobs {
             stay_bias: 0,
             early_coin: 4,
             stall_bound_us: 1_000_000,
+            schedule: None,
         }
     }
 }
@@ -46,10 +55,50 @@ pub struct SchedStats {
     /// hash of the sequence of (chosen task id) at context switches
     pub switch_hash: u64,
     pub random_words: u64,
+    /// recorded decisions that could not be followed in a replay (0 in a search run)
+    pub replay_fallbacks: u64,
+    /// decisions taken after the end of the recorded schedule
+    pub replay_beyond_end: u64,
 }
 
 thread_local! {
     static STATS: RefCell<SchedStats> = RefCell::new(SchedStats::default());
+    static RECORD: RefCell<(bool, Vec<u32>)> = const { RefCell::new((false, Vec::new())) };
+}
+
+/// Ask the next execution on this OS thread to record the task chosen at every decision.
+pub fn set_recording(on: bool) {
+    RECORD.with(|r| {
+        let mut r = r.borrow_mut();
+        r.0 = on;
+        r.1.clear();
+    });
+}
+
+pub fn take_recording() -> Vec<u32> {
+    RECORD.with(|r| std::mem::take(&mut r.borrow_mut().1))
+}
+
+/// run-length encoding used in replay files: [[task, count], ...]
+pub fn rle(choices: &[u32]) -> Vec<(u32, u32)> {
+    let mut out: Vec<(u32, u32)> = Vec::new();
+    for c in choices {
+        match out.last_mut() {
+            Some((t, n)) if t == c => *n += 1,
+            _ => out.push((*c, 1)),
+        }
+    }
+    out
+}
+
+pub fn un_rle(segs: &[(u32, u32)]) -> Vec<u32> {
+    let mut out = Vec::new();
+    for (t, n) in segs {
+        for _ in 0..*n {
+            out.push(*t);
+        }
+    }
+    out
 }
 
 /// scheduling decisions taken so far in the execution running on this OS thread
@@ -68,7 +117,12 @@ pub struct SimScheduler {
     started: bool,
     last_ran_us: BTreeMap<usize, u64>,
     last_task: Option<usize>,
+    pos: usize,
+    run_len: u32,
 }
+
+/// longest run of consecutive decisions the default policy of a replay gives one task
+const DEFAULT_SLICE: u32 = 64;
 
 impl SimScheduler {
     pub fn new(seed: u64, knobs: SchedKnobs) -> Self {
@@ -80,6 +134,19 @@ impl SimScheduler {
             started: false,
             last_ran_us: BTreeMap::new(),
             last_task: None,
+            pos: 0,
+            run_len: 0,
+        }
+    }
+
+    fn clock_allowed(&self, others: &[TaskId], now: u64) -> bool {
+        match clock::next_deadline_us() {
+            Some(deadline) => others.iter().all(|t| {
+                let last = self.last_ran_us.get(&usize::from(*t)).copied().unwrap_or(now);
+                deadline <= last.saturating_add(self.knobs.stall_bound_us)
+            }),
+            // no timer pending: running the daemon is harmless (it will block)
+            None => true,
         }
     }
 }
@@ -94,46 +161,97 @@ impl Scheduler for SimScheduler {
         Some(Schedule::new(0))
     }
 
-    fn next_task(&mut self, runnable: &[&Task], current: Option<TaskId>, _is_yielding: bool) -> Option<TaskId> {
+    fn next_task(&mut self, runnable: &[&Task], current: Option<TaskId>, is_yielding: bool) -> Option<TaskId> {
         let now = clock::now_us();
         let is_clock = |t: &&Task| t.name().as_deref() == Some(clock::CLOCK_TASK_NAME);
         let clock_task = runnable.iter().find(|t| is_clock(t)).map(|t| t.id());
         let others: Vec<TaskId> = runnable.iter().filter(|t| !is_clock(t)).map(|t| t.id()).collect();
 
-        let mut candidates: Vec<TaskId> = others.clone();
         let mut quiescent_jump = false;
-        if let Some(ct) = clock_task {
-            if others.is_empty() {
-                candidates.push(ct);
+        let cur = current.map(usize::from);
+        let chosen = if let Some(schedule) = self.knobs.schedule.clone() {
+            // replay: follow the recording where it can be followed
+            if clock_task.is_some() && others.is_empty() {
                 quiescent_jump = true;
-            } else if self.knobs.early_coin > 0 && self.rng.below(self.knobs.early_coin as usize) == 0 {
-                // early firing, bounded by the fairness assumption
-                let allowed = match clock::next_deadline_us() {
-                    Some(deadline) => others.iter().all(|t| {
-                        let last = self.last_ran_us.get(&usize::from(*t)).copied().unwrap_or(now);
-                        deadline <= last.saturating_add(self.knobs.stall_bound_us)
-                    }),
-                    // no timer pending: running the daemon is harmless (it will block)
-                    None => true,
-                };
-                if allowed {
-                    candidates.push(ct);
+            }
+            // default policy (fair, deterministic): stay on the current task; when it yields, is no
+            // longer runnable or has had DEFAULT_SLICE decisions in a row, go on to the next runnable
+            // task id in cyclic order - the clock daemon takes its turn in that order when the
+            // fairness rule allows it, and runs at once at quiescence
+            let clock_ok = clock_task.is_some() && (quiescent_jump || self.clock_allowed(&others, now));
+            let run_len = self.run_len;
+            let default_choice = || -> TaskId {
+                if !is_yielding && run_len < DEFAULT_SLICE {
+                    if let Some(t) = cur.and_then(|c| others.iter().find(|t| usize::from(**t) == c)) {
+                        return *t;
+                    }
+                }
+                let mut ring: Vec<TaskId> = others.clone();
+                if clock_ok {
+                    ring.push(clock_task.unwrap());
+                }
+                ring.sort_by_key(|t| usize::from(*t));
+                let after = cur.unwrap_or(usize::MAX);
+                ring.iter()
+                    .find(|t| usize::from(**t) > after)
+                    .or(ring.first())
+                    .copied()
+                    .unwrap_or_else(|| runnable[0].id())
+            };
+            let want = schedule.get(self.pos).copied();
+            self.pos += 1;
+            match want {
+                None => {
+                    STATS.with(|s| s.borrow_mut().replay_beyond_end += 1);
+                    default_choice()
+                }
+                Some(w) => {
+                    let hit = runnable.iter().map(|t| t.id()).find(|t| usize::from(*t) == w as usize);
+                    let ok = match hit {
+                        Some(t) if Some(t) == clock_task => quiescent_jump || self.clock_allowed(&others, now),
+                        Some(_) => true,
+                        None => false,
+                    };
+                    if ok {
+                        hit.unwrap()
+                    } else {
+                        STATS.with(|s| s.borrow_mut().replay_fallbacks += 1);
+                        default_choice()
+                    }
                 }
             }
-        }
-        if candidates.is_empty() {
-            // cannot happen: runnable is non-empty
-            candidates.push(runnable[0].id());
-        }
-        let cur = current.map(usize::from);
-        let stay = cur
-            .and_then(|c| candidates.iter().find(|t| usize::from(**t) == c).cloned())
-            .filter(|_| self.knobs.stay_bias > 0 && (self.rng.below(100) as u32) < self.knobs.stay_bias);
-        let chosen = match stay {
-            Some(t) => t,
-            None => candidates[self.rng.below(candidates.len())],
+        } else {
+            let mut candidates: Vec<TaskId> = others.clone();
+            if let Some(ct) = clock_task {
+                if others.is_empty() {
+                    candidates.push(ct);
+                    quiescent_jump = true;
+                } else if self.knobs.early_coin > 0 && self.rng.below(self.knobs.early_coin as usize) == 0 {
+                    // early firing, bounded by the fairness assumption
+                    if self.clock_allowed(&others, now) {
+                        candidates.push(ct);
+                    }
+                }
+            }
+            if candidates.is_empty() {
+                // cannot happen: runnable is non-empty
+                candidates.push(runnable[0].id());
+            }
+            let stay = cur
+                .and_then(|c| candidates.iter().find(|t| usize::from(**t) == c).cloned())
+                .filter(|_| self.knobs.stay_bias > 0 && (self.rng.below(100) as u32) < self.knobs.stay_bias);
+            match stay {
+                Some(t) => t,
+                None => candidates[self.rng.below(candidates.len())],
+            }
         };
         let cid = usize::from(chosen);
+        RECORD.with(|r| {
+            let mut r = r.borrow_mut();
+            if r.0 {
+                r.1.push(cid as u32);
+            }
+        });
         clock::set_chosen_at_quiescence(Some(chosen) == clock_task && quiescent_jump);
         if Some(chosen) == clock_task {
             if quiescent_jump {
@@ -163,6 +281,7 @@ impl Scheduler for SimScheduler {
                 );
             }
         });
+        self.run_len = if self.last_task == Some(cid) { self.run_len + 1 } else { 0 };
         self.last_task = Some(cid);
         Some(chosen)
     }
